@@ -220,6 +220,32 @@ static void body()
         if (vrt::want_sample("random") && f > 0 && n.size() > 2)
             vrt::sample("random", sfmt("haystack=%s needle=%s first=%ld last=%ld", show(h).c_str(), show(n).c_str(), f, ref::find_last(h, n, SMAX, false)));
     });
+    // long needles with planted near-misses: a candidate that agrees with the needle (modulo case) everywhere except at one
+    // position - the first byte, around a power-of-two offset, the last byte - followed or not by a real occurrence
+    {
+        static const size_t lens[] = {7, 8, 9, 15, 16, 17, 31, 32, 33, 63, 64, 65, 127, 128, 129, 255, 256, 257, 300, 511, 512, 513, 1000, 1025, 4100};
+        const size_t nl = sizeof(lens) / sizeof(lens[0]);
+        vrt::require("long_needles.cases", 100);
+        vrt::phase("long_needles", nl * 3, [&](uint64_t i, Rng &r) {
+            const size_t len = lens[i % nl];
+            const unsigned layout = static_cast<unsigned>(i / nl);          // 0: near-miss only, 1: near-miss then hit, 2: hit then near-miss
+            S n;
+            for (size_t k = 0; k < len; ++k) n += static_cast<char>("abcXYZ-_9"[r.below(9)]);
+            std::vector<size_t> where = {0, len - 1, len / 2};
+            for (size_t p2 = 4; p2 < len; p2 *= 2) { where.push_back(p2 - 1); where.push_back(p2); }
+            for (size_t at : where) {
+                S miss = r.chance(1, 2) ? ref::uppered(n) : n;
+                miss[at] = miss[at] == '#' ? '$' : '#';
+                const S hit = r.chance(1, 2) ? ref::folded(n) : n;
+                S h = "ab";
+                h += layout == 2 ? hit + "--" + miss : layout == 1 ? miss + "--" + hit : miss;
+                h += "yz";
+                vrt::Box<ST::string> hs(vrt::mk(h));
+                pair_case(hs, h, n, {0, 1, 2, 3, h.size(), len + 2, len + 4, h.size() - 2, SMAX});
+                vrt::count("long_needles.cases");
+            }
+        });
+    }
     vrt::alloc::check_pairing("search");
 }
 
